@@ -1,6 +1,7 @@
 package main
 
 import (
+	"strconv"
 	"bufio"
 	"bytes"
 	"crypto/sha1"
@@ -342,6 +343,21 @@ func c09(args []string) {
 			}
 		}
 		_ = n
+	case "timing":
+		// interactions whose outcome depends on exactly who runs when: played in a build WITHOUT the race detector (its
+		// instrumentation changes the scheduling that these interactions rely on), seeded and fixed ones
+		w := tr.NewWriter(args[1])
+		defer w.Close()
+		nscr := 60
+		if thorough {
+			nscr = 300
+		}
+		for i := 0; i < nscr; i++ {
+			runScriptedV(w, rng, []int{1, 1, 1, 2}[i%4], i)
+		}
+		for i := 0; i < nscr/2; i++ {
+			runScripted(w, rng, []int{1, 1, 4, 2}[i%4])
+		}
 	case "run":
 		w := tr.NewWriter(args[2])
 		defer w.Close()
@@ -403,9 +419,13 @@ func c09(args []string) {
 		if thorough {
 			nscr = 300
 		}
+		if v, err := strconv.Atoi(os.Getenv("VERIF_C09_NSCR")); err == nil && v > 0 {
+			nscr = v
+		}
 		for i := 0; i < nscr; i++ {
 			runScripted(w, rng, []int{1, 1, 4, 2}[i%4])
 		}
+
 		nq := 4
 		if thorough {
 			nq = 16
@@ -479,8 +499,16 @@ func (f *feedSource) Read(p []byte) (int, error) {
 
 // runScripted: a slow consumer with a one-slot channel receives in bursts chosen by a seeded script while the
 // input arrives in bursts chosen by the same script, with settle pauses in between; a second consumer never blocks.
-func runScripted(w *tr.Writer, rng *rand.Rand, procs int) {
+func runScripted(w *tr.Writer, rng *rand.Rand, procs int) { runScriptedV(w, rng, procs, -1) }
+
+// runScriptedV: variant >= 0 plays one fixed interaction instead of a seeded one: a backlog builds up behind a full
+// one-slot consumer, everything settles, then the consumer takes `nrecv` messages back to back and new input arrives
+// at that very moment - the instant at which anything that queues per consumer has a batch in flight
+func runScriptedV(w *tr.Writer, rng *rand.Rand, procs int, variant int) {
 	nmsg := 6 + rng.Intn(8)
+	if variant >= 0 {
+		nmsg = 8
+	}
 	frames := make([][]byte, nmsg)
 	var in []byte
 	for i := range frames {
@@ -503,14 +531,19 @@ func runScripted(w *tr.Writer, rng *rand.Rand, procs int) {
 			appcore.New(&jsonconfig.Config{}, chans).HandleMessagesUntilEOF(c09Start, bufio.NewReader(src))
 		})
 	}()
-	const settle = 15 * time.Millisecond
+	settle := 15 * time.Millisecond
+	if v, err := strconv.Atoi(os.Getenv("VERIF_C09_SETTLE_MS")); err == nil && v > 0 {
+		settle = time.Duration(v) * time.Millisecond
+	}
 	fed, got := 0, 0
 	end := c09End{Ev: "end"}
+	// what the slow consumer receives is kept in memory and written out afterwards: writing (a system call) between two
+	// receives would hand the processor to the other goroutines exactly when the interaction wants them not to run
+	var slowGot []handler.Message
 	recv := func() bool {
 		select {
 		case m := <-slow:
-			mm := m
-			w.Emit(c09Recv{"recv", 1, msgDigest(&mm)})
+			slowGot = append(slowGot, m)
 			got++
 			return true
 		case <-time.After(5 * time.Second):
@@ -524,8 +557,26 @@ func runScripted(w *tr.Writer, rng *rand.Rand, procs int) {
 		}
 	}
 	// build a backlog first: several messages arrive while the slow consumer takes nothing
-	feed(3 + rng.Intn(3))
-	time.Sleep(settle)
+	if variant >= 0 {
+		feed(3 + variant%3)
+		time.Sleep(settle)
+		ok := true
+		for i := 0; i < 1+(variant/3)%2 && ok; i++ { // the consumer takes one or two ...
+			ok = recv()
+		}
+		time.Sleep(settle) // ... whatever queues behind it moves up and comes to rest ...
+		for i := 0; i < 2+(variant/6)%2 && ok && got < fed; i++ { // ... then it takes two or three back to back ...
+			ok = recv()
+		}
+		feed(1 + (variant/12)%2) // ... and at that very moment new input arrives
+		time.Sleep(settle)
+		for ok && got < fed {
+			ok = recv()
+		}
+	} else {
+		feed(3 + rng.Intn(3))
+		time.Sleep(settle)
+	}
 	for fed < nmsg || got < nmsg {
 		if got < fed {
 			// the consumer takes a burst ...
@@ -554,6 +605,9 @@ func runScripted(w *tr.Writer, rng *rand.Rand, procs int) {
 	case p := <-ret:
 		end.Returned, end.Panic = true, p
 	case <-time.After(10 * time.Second):
+	}
+	for i := range slowGot {
+		w.Emit(c09Recv{"recv", 1, msgDigest(&slowGot[i])})
 	}
 	close(fast)
 	for m := range fast {
